@@ -188,8 +188,8 @@ def one_to_one(ctx) -> None:
     if len(rets) != 1 or len(rets[0].elts) != 5:
         ctx.rep.inconclusive(rule, v.qualname, "validator does not return the 5-tuple (wells, position, volumes, liquid class, tips)")
         return
-    wells_var = getattr(rets[0].elts[0], "id", None)
-    tips_var = getattr(rets[0].elts[4], "id", None)
+    wells_var = getattr(fv.alias_root(rets[0].elts[0], fv.return_nodes()[0].id), "id", None)
+    tips_var = getattr(fv.alias_root(rets[0].elts[4], fv.return_nodes()[0].id), "id", None)
     # the volumes handed to the command are the given ones rounded to two decimals (the resolution of the command)
     vraw, vat = fv.def_expr(rets[0].elts[2], fv.return_nodes()[0].id)
     core = vraw
@@ -209,7 +209,8 @@ def one_to_one(ctx) -> None:
     rets_nodes = fv.return_nodes()
     # the order that counts is that of the *returned* (converted / flattened) sequences: a check on the raw arguments
     # compares numbers 1-8 with Tip mask values, resp. an unflattened selection
-    for what, names in (("tips", {tips_var}), ("wells", {wells_var})):
+    rn0 = fv.return_nodes()[0].id
+    for what, names in (("tips", set(fv.alias_chain(rets[0].elts[4], rn0)) or {tips_var}), ("wells", set(fv.alias_chain(rets[0].elts[0], rn0)) or {wells_var})):
         if None in names:
             ctx.rep.inconclusive(rule, f"{v.qualname}/ascending-{what}", f"the returned {what} are not a local list", where=w)
             continue
